@@ -115,11 +115,13 @@ def probe_main():
     if rc > 0 and se.strip() and so == b'': out['exit_code'] = rc
     return out
 
-def probe_fntable():
+def probe_fntable(missing=None):
     """functions whose definition the translator could not read: does every known name / alias of them resolve, and
     with which arity (0..5 arguments tried; 4 and 5 accepted = unbounded)"""
-    st = json.load(open(os.path.join(lib.COQ, 'Gen', 'tables_status.json')))
-    missing = set(st['source_reading'].get('fn_table_missing') or [])
+    if missing is None:
+        st = json.load(open(os.path.join(lib.COQ, 'Gen', 'tables_status.json')))
+        missing = st['source_reading'].get('fn_table_missing') or []
+    missing = set(missing)
     known = [k for k in json.load(open(os.path.join(lib.VERIF, 'extractor', 'fn_table_known.json'))) if k['name'] in missing]
     cases = []; idx = {}
     for fi, k in enumerate(known):
